@@ -78,7 +78,7 @@ Definition rule_okb (r : orule) : bool :=
   in_fragment OG extras uranges pp (oexpr_of r) && rok OG (K OG) (oexpr_of r) && lits_validb (oexpr_of r).
 
 Definition grammar_okb : bool :=
-  nodupb (map oname OG) && forallb rule_okb OG &&
+  nodupb (map oname OG) && forallb (fun r => negb (is_builtin (oname r))) OG && forallb rule_okb OG &&
   (negb (has_orule OG (nm "WHITESPACE")) || fclean OG (K OG) (OIdent (nm "WHITESPACE"))) &&
   (negb (has_orule OG (nm "COMMENT")) || fclean OG (K OG) (OIdent (nm "COMMENT"))).
 
@@ -86,13 +86,15 @@ Lemma grammar_okb_sound : grammar_okb = true -> grammar_ok OG extras uranges pp.
 Proof.
   unfold grammar_okb. intros H.
   apply andb_true_iff in H. destruct H as [H H4]. apply andb_true_iff in H. destruct H as [H H3].
-  apply andb_true_iff in H. destruct H as [H1 H2]. rewrite forallb_forall in H2.
+  apply andb_true_iff in H. destruct H as [H H2]. apply andb_true_iff in H. destruct H as [H1 Hnames].
+  rewrite forallb_forall in H2. rewrite forallb_forall in Hnames.
   assert (R : forall r, In r OG -> in_fragment OG extras uranges pp (oexpr_of r) = true /\
                                    rok OG (K OG) (oexpr_of r) = true /\ lits_validb (oexpr_of r) = true).
   { intros r Hr. specialize (H2 r Hr). unfold rule_okb in H2.
     apply andb_true_iff in H2. destruct H2 as [H2 Hc]. apply andb_true_iff in H2. tauto. }
   split.
   - now apply nodupb_sound.
+  - intros r Hr. apply negb_true_iff. now apply Hnames.
   - intros r Hr. apply (R r Hr).
   - intros r Hr. apply rok_rokP. apply (R r Hr).
   - intros r Hr. apply lits_validb_sound. apply (R r Hr).
